@@ -556,6 +556,8 @@ impl AccessRaw for RawVector {
 
     #[inline]
     fn set_bit(&mut self, bit_offset: usize, value: bool) {
+        // Setting an unused bit in the last word would break the invariant that the unsafe code relies on.
+        assert!(bit_offset < self.len(), "RawVector::set_bit(): Bit offset is out of bounds");
         let (index, offset) = bits::split_offset(bit_offset);
         self.data[index] &= !(1u64 << offset);
         self.data[index] |= (value as u64) << offset;
